@@ -23,6 +23,18 @@ def traces(chk, gen, check, quick=(4, 600), thorough=(16, 3000), note=None):
     return chk.add_traces(f"trace_{gen}", gen, n, count, check, note=note, timeout=2400)
 
 
+FLOATPROGS_NOTE = ("random programs of NESTED float and mixed int/float arithmetic (+ - * / % ^, unary minus, comparisons, && ||, "
+                   "floor ceil round math::sqrt abs exp ln cbrt, if, all seven arithmetic assignment forms on float and int "
+                   "variables, chains) on a context that persists across programs; the operand pairs of the inner operations "
+                   "are listed by a shadow walk of the generator's own AST and tabulated by primgen; result, type and context "
+                   "afterwards must be the specification's")
+
+
+def float_programs(chk, quick=(3, 400), thorough=(12, 1500)):
+    count, n = quick if chk.tier == "quick" else thorough
+    return chk.add_traces("trace_floatprogs", "floatprogs", n, count, "trace_floatprogs", note=FLOATPROGS_NOTE, timeout=2400)
+
+
 def tokens(chk, alpha, maxlen, relevant, nontrivial, workers=12, timeout=1500):
     tag = f"tokens_{alpha}{maxlen}"
     info, summ = vf.run_model(tag, "MC_Tokens.tla", {"MaxLen": maxlen, "AlphaName": alpha}, chk.outdir,
@@ -68,7 +80,12 @@ def c13(chk):
     rel = {"if_accepted", "if_evaluates", "unbalanced_accepted", "balanced_reported_unbalanced", "panic"}
     if chk.tier == "quick":
         tokens(chk, "core", 5, rel, ["if"])
+        # the enumerated sequence as an argument of the builtin `if` in the branch that is NOT selected (MC_Tokens.tla)
+        tokens(chk, "ifthen", 4, rel, ["if"])
+        tokens(chk, "ifelse", 4, rel, ["if"])
     else:
+        tokens(chk, "ifthen", 5, rel, ["if"], workers=16)
+        tokens(chk, "ifelse", 5, rel, ["if"], workers=16)
         tokens(chk, "core", 6, rel, ["if"], workers=16, timeout=3000)
         tokens(chk, "wide", 5, rel, ["if"], workers=16)
         tokens(chk, "call", 6, rel, ["if"], workers=16)
@@ -212,6 +229,7 @@ def c03(chk):
     traces(chk, "ops", "trace_ops", quick=(4, 2500), thorough=(16, 12000),
            note="random operand pairs: full-range i64 (recomputed on limbs by Int64.tla), random bit-pattern doubles from a "
                 "per-trace pool (primitives by primgen), strings, booleans, tuples")
+    float_programs(chk)
     repo_tests(chk)
 
 
@@ -272,6 +290,7 @@ def c04(chk):
     traces(chk, "histories", "trace_histories", quick=(4, 1500), thorough=(16, 8000),
            note="random histories of 200 operations over 12 names and two slots with full-range values; the abstract contexts "
                 "are carried along by Trace_Api.tla and every recorded projection must equal them")
+    float_programs(chk, quick=(2, 300), thorough=(6, 1500))
     repo_tests(chk)
 
 
@@ -306,6 +325,7 @@ def c08(chk):
     traces(chk, "programs", "trace_programs",
            note="random programs of up to ~30 atoms with assignments and recording user functions, evaluated on a context that "
                 "persists across programs: result, context and ordered call log must be the specification's")
+    float_programs(chk, quick=(2, 300), thorough=(8, 1500))
     repo_tests(chk, quick=True)
 
 
@@ -478,6 +498,13 @@ def c16(chk):
                               invariants=("TypeOK",), properties=CTX_PROPS, view="View", constraint="InDomain", workers=12,
                               env_extra={"PRIMS": prims})
     chk.add_model(info, summ, rel, ["history_with_serde"], note="MC_Ctx.tla with the serde round trip as an operation")
+    # a user function that SHADOWS A BUILTIN (`max`) next to an ordinary one: "without functions" also means that nothing is
+    # left behind under a builtin's name (a stub, a marker) - the probe asks the context for `max` after the round trip
+    info, summ = vf.run_model("serde_ctx_zeros", "MC_Ctx.tla", {"Size": "zeros", "WithSerde": True}, chk.outdir, harness=hbin,
+                              invariants=("TypeOK",), properties=CTX_PROPS, view="View", constraint="InDomain", workers=12,
+                              env_extra={"PRIMS": prims})
+    chk.add_model(info, summ, rel, ["history_with_serde"],
+                  note="MC_Ctx.tla (signed zeros; user functions f and max, the latter shadowing a builtin) with the serde round trip")
     info, summ = vf.run_model("serde_pool", "MC_SerdePool.tla", {"PoolName": "quick" if quick else "full"}, chk.outdir, harness=hbin,
                               workers=4)
     chk.add_model(info, summ, rel, ["value_nontrivial"], note="every pool value x both switch positions")
